@@ -407,6 +407,10 @@ def search_operator(chk, r, n, max_pto):
         for degree in (3, 2):
             plans.append(dict(kind=kind, mode=mode, sc=SCENARIOS[0], x=float(seq_grid[6] * 1.0005), Q2=2.0, MP=2.0, grid=seq_grid, degree=degree, is_log=True, pto=pto, tag="node-between-xi-and-x"))
         plans.append(dict(kind=kind, mode=mode, sc=SCENARIOS[0], x=float(seq_grid[0] * 1.05), Q2=50.0, MP=0.938, grid=seq_grid, degree=3, is_log=True, pto=pto, tag="first-interval"))
+    # nuclear targets: x, xi and the structure functions are per nucleon, so the mass in mu = M^2/Q^2 stays
+    # the nucleon mass of the theory card whatever (Z, A) is
+    for (kind, mode, pto), target in zip((("F2", 1, 0), ("FL", 3, 1), ("F2", 2, 0), ("F3", 1, 0)), ("isoscalar", "iron", {"Z": 82.0, "A": 208.0}, "lead")):
+        plans.append(dict(kind=kind, mode=mode, sc=SCENARIOS[0], x=0.4, Q2=3.0, MP=0.938, grid=seq_grid, degree=3, is_log=True, pto=pto, tag="nuclear-target", target=target))
     for i in range(n):
         kind = KINDS[i % 4]
         mode = [3, 1, 2][(i // 4) % 3]
@@ -423,7 +427,9 @@ def search_operator(chk, r, n, max_pto):
         name = f"{kind}_{flavor}"
         theory_kw = dict(PTO=p["pto"], FNS=fns, NfFF=nfff)
         obs_kw = dict(prDIS=process, ProjectileDIS=proj, interpolation_xgrid=p["grid"], interpolation_polynomial_degree=p["degree"], interpolation_is_log=p["is_log"])
-        case = dict(obs=name, TMC=mode, process=process, projectile=proj, FNS=fns, NfFF=nfff, PTO=p["pto"], x=p["x"], Q2=p["Q2"], MP=p["MP"], grid=p["grid"], degree=p["degree"], is_log=p["is_log"], scenario=p["tag"])
+        if p.get("target") is not None:
+            obs_kw["TargetDIS"] = p["target"]
+        case = dict(obs=name, target=p.get("target", "proton"), TMC=mode, process=process, projectile=proj, FNS=fns, NfFF=nfff, PTO=p["pto"], x=p["x"], Q2=p["Q2"], MP=p["MP"], grid=p["grid"], degree=p["degree"], is_log=p["is_log"], scenario=p["tag"])
         try:
             real = yadism.run_yadism(cards.theory(TMC=mode, MP=p["MP"], **theory_kw), cards.obs({name: [dict(x=p["x"], Q2=p["Q2"])]}, **obs_kw))[name][0]
             ref, xi = operator_reference(kind, flavor, mode, p["x"], p["Q2"], p["MP"], theory_kw, obs_kw, p["grid"])
